@@ -33,6 +33,18 @@ def mk_param(p):
             d['end'] = [conv(v) for v in p['end']]
         if p.get('as_array'):
             d = {k: np.asarray(v) if k == 'values' else v for k, v in d.items()}
+        da = p.get('dates_as')
+        if da:
+            # the dates in another accepted form: numpy date arrays of some unit, date indices (naive / in the zone of the grid)
+            for k in ('start', 'end'):
+                if k in d:
+                    naive = [t.tz_localize(None) if t.tzinfo is not None else t for t in d[k]]
+                    if da.startswith('datetime64'):
+                        d[k] = np.array([np.datetime64(t) for t in naive], dtype=da)
+                    elif da == 'DatetimeIndex_aware' and _TZ[0] is not None:
+                        d[k] = pd.DatetimeIndex(naive).tz_localize(_TZ[0])
+                    else:
+                        d[k] = pd.DatetimeIndex(naive)
         return d
     if isinstance(p, dict) and 'array' in p:
         return np.asarray(p['array'], dtype=float)
@@ -83,6 +95,8 @@ def mk_asset(a, pool, tz=None):
     for k in PLAIN:
         if k in a:
             kw[k] = a[k]
+            if a.get('profile_as_array') and k.startswith(('start_ramp_', 'shutdown_ramp_')):
+                kw[k] = np.asarray(a[k], dtype=float)
     for k in PARAM:
         if k in a:
             kw[k] = mk_param(a[k])
